@@ -142,10 +142,8 @@ func DriverMain(args []string) int {
 			continue
 		}
 		seenClass[v.Class()]++
-		mv := v
-		if time.Now().Before(shrinkDeadline) && v.World != nil && agg.raceOf[v] == "" && v.Kind != "hang" {
-			mv = Shrink(registry[prop], v, time.Duration(cfg.ShrinkS)*time.Second)
-		}
+		mv := v // already minimised by the worker that found it (race worlds by the race phase)
+		_ = shrinkDeadline
 		if f := kf.Match(registry[prop], mv); f != nil {
 			if knownHits[f.ID] == 0 {
 				fmt.Printf("KNOWN-FINDING: property=%s %s [%s]\n", prop, f.What, f.ID)
@@ -153,7 +151,7 @@ func DriverMain(args []string) int {
 			knownHits[f.ID]++
 			continue
 		}
-		path := filepath.Join(verifDir, "replays", fmt.Sprintf("%s-%016x.json", prop, mv.World.Hash()))
+		path := filepath.Join(outDir(), "replays", fmt.Sprintf("%s-%016x.json", prop, mv.World.Hash()))
 		os.MkdirAll(filepath.Dir(path), 0o755)
 		if mv.World.Prog != nil {
 			mv.World.Src = mv.World.Prog.Src()
@@ -301,7 +299,7 @@ func search(prop, tier string, base uint64, cfg tierCfg, workers int, tmp string
 			cnt++
 		}
 		spec := WorkerSpec{Prop: prop, Tier: tier, Base: base, Start: uint64(wi), Stride: uint64(workers), Count: cnt,
-			Deadline: deadline, Out: filepath.Join(tmp, fmt.Sprintf("w%d.json", wi))}
+			Deadline: deadline, Out: filepath.Join(tmp, fmt.Sprintf("w%d.json", wi)), ShrinkS: cfg.ShrinkS / 2}
 		wg.Add(1)
 		go func() {
 			defer wg.Done()
@@ -448,6 +446,56 @@ func replayMain(path string) int {
 		if code, handled := hook(path, rf.World, rf.Kind); handled {
 			return code
 		}
+	}
+	if rf.Kind == "hang" {
+		// a hang cannot be replayed in-process: run it in a worker under the watchdog
+		tmp, err := os.MkdirTemp(filepath.Join(verifDir, "bin"), "replay-")
+		if err != nil {
+			fmt.Println("cannot create scratch dir:", err)
+			return 2
+		}
+		defer os.RemoveAll(tmp)
+		spec := WorkerSpec{Prop: rf.Property, Count: 1, Stride: 1, Replay: path, Out: filepath.Join(tmp, "out.json")}
+		sets := [4]map[uint64]struct{}{{}, {}, {}, {}}
+		res, out, err := spawn(selfBinary(os.Getenv("VERIF_SELF")), spec, 1, nil, sets, nil)
+		if err == nil && res.Hang != nil {
+			fmt.Println("replay: the call did not return within 20 s")
+			fmt.Printf("VIOLATION property=%s replay=%s\n", rf.Property, path)
+			return 1
+		}
+		if err != nil {
+			fmt.Println("replay: worker trouble:", err, firstLines(out, 20))
+			return 2
+		}
+		fmt.Println("replay: no hang")
+		return 0
+	}
+	// multi-task worlds need the worker's *testing.T (synctest): run them in a worker
+	if workerT == nil && (len(rf.World.Tasks) > 0 || rf.World.Extra["bubble"] == "1") {
+		tmp, err := os.MkdirTemp(filepath.Join(verifDir, "bin"), "replay-")
+		if err != nil {
+			fmt.Println("cannot create scratch dir:", err)
+			return 2
+		}
+		defer os.RemoveAll(tmp)
+		spec := WorkerSpec{Prop: rf.Property, Count: 1, Stride: 1, Replay: path, Trace: true, Out: filepath.Join(tmp, "out.json")}
+		sets := [4]map[uint64]struct{}{{}, {}, {}, {}}
+		res, out, err := spawn(selfBinary(os.Getenv("VERIF_SELF")), spec, 1, nil, sets, nil)
+		if err != nil || res.Crash != "" {
+			fmt.Println("replay: worker trouble:", err, firstLines(out, 20))
+			return 2
+		}
+		for _, l := range res.TraceLogs["0"] {
+			fmt.Println("  ", l)
+		}
+		if len(res.Violations) == 0 {
+			fmt.Printf("replay: no violation (recorded class %s/%s)\n", rf.Property, rf.Kind)
+			return 0
+		}
+		v := res.Violations[0]
+		fmt.Printf("replay: %s\n  %s\n", v.Class(), strings.ReplaceAll(firstLines(v.Msg, 30), "\n", "\n  "))
+		fmt.Printf("VIOLATION property=%s replay=%s\n", rf.Property, path)
+		return 1
 	}
 	st := NewStats()
 	st.Tracing = true
